@@ -102,7 +102,7 @@ def floors(tier):
             "raised_ValidationError": 20000, "raised_RefResolutionError": 50, "raised_UnknownType": 20,
             "distinct_nontrivial": 20000, "entry:is_valid": 10000, "entry:iter_errors": 10000,
             "entry:validate": 2000, "entry:module_validate": 2000, "entry:with_format_checker": 2000,
-            "pairs_consulting": 500}
+            "pairs_consulting": 500, "hostile_string_schemas": 1000}
 
 
 # --------------------------------------------------------------------- known-finding classifiers
@@ -395,6 +395,16 @@ def _core(ctx, R):
                 for inst in ["a", "A", "aa", "foo", "b", {"a": 1}, {"b": 1, "B": 2}, {"aa": 1, "bb": 2, "foo": 3},
                              {"ab": 1}, {}, 1]:
                     R.case(d, s, inst)
+        for s, insts in _hostile_string_schemas(d):
+            idx += 1
+            if not ctx.mine(idx):
+                continue
+            if not gate(ctx, d, s):
+                ctx.count("hostile_string_schema_rejected")
+                continue
+            ctx.count("hostile_string_schemas")
+            for inst in insts:
+                R.case(d, s, inst, full=True)
         for s in _ref_schemas(d):
             idx += 1
             if not ctx.mine(idx):
@@ -404,6 +414,57 @@ def _core(ctx, R):
             ctx.count("odd_ref_schemas")
             for inst in [1, "a", {}, {"p": 1}, {"a": {"a": 1}}, [1, [2]], None]:
                 R.case(d, s, inst)
+
+
+HOSTILE_STRINGS = ["%", "%s", "%d", "%(x)s", "%%", "50%", "{}", "{0}", "{error}", "{file_name}", "\\", "'", '"', "a\nb", "\x00",
+                   "\U0001d11e", "%r", "$", "^", "a b", "<>", "\t", "%5", "% d"]
+HOSTILE_REGEXES = ["%", "^[0-9]+%$", "%s", "%d%%", "\\{\\}", "a{1}", "'", '"', "%(x)s", "^\\$", "\\\\", "{", "%r|x", "\\x00"]
+
+
+def _hostile_string_schemas(d):
+    """Strings with %-, {}-, quote-, backslash- and control characters at every place where the
+    implementation embeds schema or instance text in a message."""
+    H = HOSTILE_STRINGS
+    for i, h in enumerate(H):
+        h2 = H[(i + 1) % len(H)]
+        yield {"properties": {h: {"type": "null"}}, "additionalProperties": False}, [{h: 1, h2: 2}, {h2: 1, "x": 2}, {h: None}]
+        yield {"dependencies": {h: [h2, "zz"]}}, [{h: 1}, {h: 1, h2: 2}]
+        yield {"enum": [h, [h], {h: h2}]}, [h2, h, [h2], {h: h}]
+        yield {"minLength": 50}, [h]
+        yield {"maxLength": 0, "type": "integer"}, [h]
+        yield {"format": h}, [h2, "x"]
+        yield {"type": "object", "properties": {"a": {"enum": [h]}}}, [{"a": h2}]
+        yield {"items": [{"type": "null"}], "additionalItems": False}, [[None, h, h2]]
+        yield {"uniqueItems": True}, [[h, h], [{h: 1}, {h: 1}]]
+        if d == 3:
+            yield {"properties": {h: {"required": True}}}, [{}, {h2: 1}]
+            yield {"disallow": [{"enum": [h]}]}, [h]
+            yield {"dependencies": {h: h2}}, [{h: 1}]
+            yield {"type": [{"enum": [h]}, "null"]}, [h2]
+            yield {"extends": [{"enum": [h]}]}, [h2]
+        else:
+            yield {"required": [h, h2]}, [{}, {h: 1}]
+            yield {"not": {"enum": [h], "description": h2}}, [h]
+            yield {"oneOf": [{"enum": [h]}, {"type": "string", "title": h2}]}, [h, 1]
+            yield {"anyOf": [{"enum": [h]}, {"minLength": 99, "title": h}]}, [h2]
+            yield {"maxProperties": 0}, [{h: h2}]
+        if d >= 6:
+            yield {"const": h}, [h2]
+            yield {"const": {h: [h2]}}, [{h: [h]}]
+            yield {"propertyNames": {"enum": [h]}}, [{h2: 1}]
+            yield {"contains": {"enum": [h]}}, [[h2, 1]]
+        if d >= 7:
+            yield {"if": {"enum": [h]}, "then": {"enum": [h2]}, "else": {"enum": [h]}}, [h, h2]
+    for i, rx_ in enumerate(HOSTILE_REGEXES):
+        if not _compiles(rx_):
+            continue
+        h = H[i % len(H)]
+        yield {"pattern": rx_}, [h, "zz", "%", "5%", "{}"]
+        yield {"patternProperties": {rx_: {"type": "null"}}, "additionalProperties": False}, [{"zz": 1, h: 2}, {"%": 1, "5%": 2, "q": 3}, {"zz": 1}]
+        yield {"patternProperties": {rx_: {"type": "null"}, "^a": {}}, "additionalProperties": {"type": "null"}}, [{"zz": 1, h: 2}]
+        yield {"patternProperties": {rx_: {"type": "null"}}, "properties": {h: {}}, "additionalProperties": False}, [{"zz": 1, h: 2, "yy": 3}]
+        if d >= 6:
+            yield {"propertyNames": {"pattern": rx_}}, [{"zz": 1, h: 2}]
 
 
 def _ref_schemas(d):
